@@ -334,3 +334,167 @@ class Insert(Contract):
         cx.prove("before-pos", z3.Implies(z3.And(0 <= j, j < pos), items.at(j) == s.at(j)))
         cx.prove("after-pos", z3.Implies(z3.And(pos < j, j <= n), items.at(j) == s.at(j - 1)))
         cx.prove("frame:items-unchanged", cx.ctx.heap["D"] == cx.old["heap"]["D"])
+
+
+def unique_inv(S):
+    """found_ids == { key(self[p]) | p < k }"""
+    ctx = S.ctx
+    found = S.contents(S.var("found_ids"))
+    s = S.coll
+    D = M.heap_D(ctx)
+    k1 = M.to_v(S.it, "k1")
+    x = z3.Const("x!inv", V)
+    p = z3.Int("p!inv")
+    return z3.ForAll([x], found.mem(x) == z3.Exists([p], z3.And(0 <= p, p < S.k, D[s.at(p)][k1] == x)))
+
+
+@register
+class Unique1(Contract):
+    """unique(key): keeps exactly the first item of every distinct key value, in order."""
+    file, qualname, prop, variant = F, "ListOfDicts.unique", "C15", "one key"
+    loops = {("ListOfDicts.unique", 0): LoopSpec(unique_inv)}
+
+    def setup(self, cx):
+        self_ = cx.lod("self")
+        all_items_have(cx, self_.base, ["k1"])
+        return {"self": self_, "args": ["k1"]}
+
+    def ensures(self, cx, result):
+        ctx = cx.ctx
+        s = cx.inputs["self"].base
+        D0 = cx.old["heap"]["D"]
+        k1 = M.to_v(cx.it, "k1")
+        items = result_items(cx, result)
+        p = z3.Int("p!spec")
+
+        def first_occurrence(k):
+            return z3.Not(z3.Exists([p], z3.And(0 <= p, p < k, D0[s.at(p)][k1] == D0[s.at(k)][k1])))
+        spec = filter_seq(ctx, s.len, first_occurrence, lambda k: s.at(k))
+        cx.prove("seq=first-item-per-key", seq_eq(ctx, items, spec))
+        cx.prove("frame:items-unchanged", ctx.heap["D"] == D0)
+
+
+def comparable_values(cx, s, keys):
+    """Precondition of sort: under every sort key each item has a value that is None or belongs
+    to one class of mutually comparable values on which < is a strict total order."""
+    from pyvc.core import v_lt
+    ctx = cx.ctx
+    cmp_ = z3.Function("comparable", V, BOOL)
+    x, y, z = z3.Consts("x!cmp y!cmp z!cmp", V)
+    ctx.assumptions.append(z3.ForAll([x], z3.Not(v_lt(x, x)), patterns=[v_lt(x, x)]))
+    ctx.assumptions.append(z3.ForAll([x, y, z], z3.Implies(z3.And(v_lt(x, y), v_lt(y, z)), v_lt(x, z)),
+                                     patterns=[z3.MultiPattern(v_lt(x, y), v_lt(y, z))]))
+    ctx.assumptions.append(z3.ForAll([x, y], z3.Implies(z3.And(cmp_(x), cmp_(y), x != y), z3.Or(v_lt(x, y), v_lt(y, x))),
+                                     patterns=[z3.MultiPattern(cmp_(x), cmp_(y))]))
+    ctx.assumptions.append(z3.Not(cmp_(NONE)))
+    D = M.heap_D(ctx)
+    j = z3.Int("j!cmp")
+    for k in keys:
+        kv = M.to_v(cx.it, k)
+        ctx.assumptions.append(z3.ForAll([j], z3.Implies(in_range(j, s.len), z3.And(
+            D[s.at(j)][kv] != ABSENT, z3.Or(D[s.at(j)][kv] == NONE, cmp_(D[s.at(j)][kv])))), patterns=[s.at(j)]))
+    return cmp_
+
+
+def before(D, kv, dir_, x, y):
+    """x must come strictly before y by key kv in direction dir_ (None last in both directions)."""
+    from pyvc.core import v_lt
+    vx, vy = D[x][kv], D[y][kv]
+    lt = v_lt(vx, vy) if dir_ > 0 else v_lt(vy, vx)
+    return z3.Or(z3.And(vx != NONE, vy == NONE), z3.And(vx != NONE, vy != NONE, lt))
+
+
+def lex_before(D, keys, x, y):
+    """lexicographic 'strictly before' over [(key, dir), ...]"""
+    if not keys:
+        return z3.BoolVal(False)
+    (kv, d), rest = keys[0], keys[1:]
+    b = before(D, kv, d, x, y)
+    tie = z3.And(z3.Not(b), z3.Not(before(D, kv, d, y, x)))
+    return z3.Or(b, z3.And(tie, lex_before(D, rest, x, y)))
+
+
+class _Sort(Contract):
+    file, qualname, prop = F, "ListOfDicts.sort", "C15"
+    dirs = (1,)
+
+    def setup(self, cx):
+        self_ = cx.lod("self")
+        names = ["k1", "k2", "k3"][:len(self.dirs)]
+        comparable_values(cx, self_.base, names)
+        return {"self": self_, "kwargs": dict(zip(names, self.dirs)), "names": names}
+
+    def ensures(self, cx, result):
+        ctx = cx.ctx
+        s = cx.inputs["self"].base
+        D0 = cx.old["heap"]["D"]
+        items = result_items(cx, result)
+        keys = [(M.to_v(cx.it, n), d) for n, d in zip(cx.inputs["names"], self.dirs)]
+        n = zint(s.len)
+        cx.prove("len", zint(items.len) == n)
+        # permutation: there is a bijection pi with items[j] = self[pi(j)]; the code's composition of
+        # sorted() permutations is the witness
+        pi = self.witness(cx, result)
+        j, a, b = ctx.fresh("j", INT), ctx.fresh("a", INT), ctx.fresh("b", INT)
+        cx.prove("perm:range+injective", z3.Implies(in_range(j, n), z3.And(in_range(pi["f"](j), n), pi["g"](pi["f"](j)) == j)))
+        cx.prove("perm:surjective", z3.Implies(in_range(j, n), z3.And(in_range(pi["g"](j), n), pi["f"](pi["g"](j)) == j)))
+        cx.prove("perm:items", z3.Implies(in_range(j, n), items.at(j) == s.at(pi["f"](j))))
+        rng = z3.And(0 <= a, a < b, b < n)
+        xa, xb = items.at(a), items.at(b)
+        cx.prove("ordered", z3.Implies(rng, z3.Not(lex_before(D0, keys, xb, xa))))
+        cx.prove("stable", z3.Implies(z3.And(rng, z3.Not(lex_before(D0, keys, xa, xb))), pi["f"](a) < pi["f"](b)))
+        cx.prove("frame:items-unchanged", ctx.heap["D"] == D0)
+
+    def witness(self, cx, result):
+        """Compose the permutations of the successive sorted() calls (read off the result value)."""
+        seq = result.base
+        chain = []
+        cur = seq
+        while getattr(cur, "perm", None) is not None:
+            chain.append(cur.perm)
+            cur = getattr(cur, "src", None)
+            if cur is None:
+                break
+        if not chain:
+            raise M.Unsupported("result is not the output of sorted()")
+
+        def f(j):
+            for pm in chain:
+                j = pm.perm(j)
+            return j
+
+        def g(i):
+            for pm in reversed(chain):
+                i = pm.inv(i)
+            return i
+        return {"f": f, "g": g}
+
+
+@register
+class SortAsc(_Sort):
+    variant, dirs = "one key ascending", (1,)
+
+
+@register
+class SortDesc(_Sort):
+    variant, dirs = "one key descending", (-1,)
+
+
+@register
+class SortAscAsc(_Sort):
+    variant, dirs = "two keys asc,asc", (1, 1)
+
+
+@register
+class SortAscDesc(_Sort):
+    variant, dirs = "two keys asc,desc", (1, -1)
+
+
+@register
+class SortDescAsc(_Sort):
+    variant, dirs = "two keys desc,asc", (-1, 1)
+
+
+@register
+class SortDescDesc(_Sort):
+    variant, dirs = "two keys desc,desc", (-1, -1)
